@@ -33,10 +33,15 @@ impl Peer {
 }
 
 pub async fn connect_peer(node: &Arc<Node>, listener: &TcpListener) -> Option<Peer> {
+    connect_peer_tail(node, listener, &[]).await
+}
+
+/// `tail`: framed distribution bytes the peer sends in one piece with its last handshake message
+pub async fn connect_peer_tail(node: &Arc<Node>, listener: &TcpListener, tail: &[u8]) -> Option<Peer> {
     let acc = async {
         let (s, _) = listener.accept().await.ok()?;
         let _ = s.set_linger(Some(Duration::ZERO));
-        accept_handshake(s, PEER, PEER_FLAGS).await
+        accept_handshake_tail(s, PEER, PEER_FLAGS, tail).await
     };
     let (pc, r) = tokio::join!(acc, node.connect(PEER));
     if r.is_err() {
